@@ -160,10 +160,28 @@ func (dr *driver) judgeRaces(c core.Case, r *core.Result) {
 	}
 }
 
+// runAll runs the cases and judges the results. Outside the race portion two
+// thirds of the cases run with GOMAXPROCS=1 (lexer and parser goroutines hand
+// over on one thread: 2.5 times the throughput) and one third with GOMAXPROCS=2
+// (lexer and parser really in parallel); the race portion runs with 4.
 func (dr *driver) runAll(cases []core.Case, race bool) {
-	rs := dr.d.Run(cases, core.RunOpts{NoTally: true, Race: race, CaseWall: 150 * time.Second, GOMAXPROCS: 2})
-	for i := range rs {
-		dr.judge(cases[i], rs[i], race)
+	if race {
+		rs := dr.d.Run(cases, core.RunOpts{NoTally: true, Race: true, CaseWall: 150 * time.Second, GOMAXPROCS: 4})
+		for i := range rs {
+			dr.judge(cases[i], rs[i], true)
+		}
+		return
+	}
+	cut := len(cases) * 2 / 3
+	for part, procs := range []int{1, 2} {
+		cs := cases[:cut]
+		if part == 1 {
+			cs = cases[cut:]
+		}
+		rs := dr.d.Run(cs, core.RunOpts{NoTally: true, CaseWall: 150 * time.Second, GOMAXPROCS: procs})
+		for i := range rs {
+			dr.judge(cs[i], rs[i], false)
+		}
 	}
 }
 
